@@ -641,7 +641,11 @@ impl Monitor for C06 {
                     // backwards (k, k-1), forwards, or shuffled, each randomly oriented, closed by a pair joining the two
                     // ends -- orders in which a union-find without balancing builds a path, not a bush
                     let n = r.range(65, 400);
-                    let mut pairs: Vec<(usize, usize)> = (1..n).map(|k| (k, k - 1)).collect();
+                    // (half of the time one point stays outside the chain and is joined to one of its ends, its
+                    // middle or nothing by the last pair)
+                    let outsider = if r.chance(1, 2) { Some(*r.pick(&[0usize, n - 1, n / 2])) } else { None };
+                    let pts: Vec<usize> = (0..n).filter(|&p| Some(p) != outsider).collect();
+                    let mut pairs: Vec<(usize, usize)> = (1..pts.len()).map(|k| (pts[k], pts[k - 1])).collect();
                     match r.below(4) {
                         0 => pairs.reverse(),
                         1 => {}
@@ -649,7 +653,15 @@ impl Monitor for C06 {
                         _ => { pairs.reverse(); for p in pairs.iter_mut() { *p = (p.1, p.0); } }
                     }
                     if r.chance(1, 3) { for p in pairs.iter_mut() { if r.chance(1, 2) { *p = (p.1, p.0); } } }
-                    if r.chance(2, 3) { pairs.push((n - 1, 0)); }
+                    match outsider {
+                        Some(o) => {
+                            if r.chance(4, 5) {
+                                let at = *r.pick(&[pts[0], pts[pts.len() - 1], pts[pts.len() / 2]]);
+                                pairs.push(if r.chance(1, 2) { (at, o) } else { (o, at) });
+                            }
+                        }
+                        None => { if r.chance(2, 3) { pairs.push((n - 1, 0)); } }
+                    }
                     let extra = r.below(4);
                     let f: F = (pairs.iter().map(|p| p.0).collect(), n + extra);
                     let g: F = (pairs.iter().map(|p| p.1).collect(), n + extra);
